@@ -52,6 +52,9 @@ ERR_TO_OK_TABLE = {
     "noodles_bcf::r#async::io::reader::record::read_exact_or_eof::{closure#0}": "Interrupted retry",
     "noodles_bgzf::io::reader::default_read_exact": "Interrupted retry",
     "noodles_bgzf::io::reader::frame::read_frame_into": "UnexpectedEof on the 18 header bytes is end of stream",
+    "noodles_util::alignment::io::reader::builder::detect_format":
+        "format sniffing on a PEEKED window (nothing is consumed): an inflated stream shorter than the BAM magic number is 'not BAM' (genuine "
+        "defect F59, repaired: the empty SAM.gz of the generic writer could not be opened); the chosen reader then meets the same bytes again",
     "noodles_bam::bai::io::reader::index::read_unplaced_unmapped_record_count": "optional trailing field: UnexpectedEof = absent",
     "noodles_bam::bai::r#async::io::reader::index::read_unplaced_unmapped_record_count::{closure#0}": "optional trailing field",
     "noodles_csi::io::reader::index::read_unplaced_unmapped_record_count": "optional trailing field",
